@@ -554,6 +554,35 @@ def sc_c06(env, t, v, cfg):
             continue
         exp = V.replace_at(t, exp, path, V.expected(lt, nv))
         read_ok(env, t, r, exp, f"C06 a write through the {'handle' if w is obj else 'view'} is seen through the other ({path})")
+    # a whole array of strings rewritten, through either, from an INSTANCE of its class that has the same shape and the
+    # same total size but splits its bytes differently among the items (the texts rotated, then shortened in place so
+    # that every item fits the slot it goes to): the other one must see the new items (M11-C06: a handle keeps the
+    # item-offset table it computed at construction)
+    k = 0
+    for path, ct, cv in V.compounds(t, v):
+        if ct[0] != "array" or ct[1][0] != "string" or len(ct[2]) != 1 or cv is None or len(cv) < 2:
+            continue
+        if path and (V.type_at(t, v, path)[0][0] in ("ref", "uref") or behind_ref(t, v, path)):
+            continue
+        try:
+            src = tg.build(ct)(list(cv[1:]) + list(cv[:1]), _buffer=B.buf)
+            newv = [f"c{i}" for i in range(len(cv))]
+            for i, x in enumerate(newv):
+                src[i] = x
+            w, r = (obj, view) if k % 2 == 0 else (view, obj)
+            node = V.get_at(t, w, path) if path else w
+            node._update(src)
+        except BaseException as ex:
+            if not isinstance(ex, Exception):
+                raise
+            env.check(False, f"C06 rewriting the string array at {path or 'root'} from an instance of its class raised {type(ex).__name__}: {str(ex)[:80]}")
+            continue
+        exp = V.replace_at(t, exp, path, V.expected(ct, newv)) if path else V.expected(ct, newv)
+        read_ok(env, t, r, exp, f"C06 a string array rewritten through the {'handle' if w is obj else 'view'} from an instance with another item split is seen through the other ({path or 'root'})")
+        read_ok(env, t, w, exp, f"C06 a string array rewritten through the {'handle' if w is obj else 'view'} from an instance with another item split reads back through the same one ({path or 'root'})")
+        k += 1
+        if k >= 2:
+            break
     env.reach()
 
 
